@@ -165,3 +165,38 @@ def run(ck):
     xor = [i for i in cte.walk() if cte.nodes[i].get('op') in ('^', '^=', '|=')]
     ck.ob('C27.cmp', 'C27.cmp/accumulate', len(xor) >= 2 and len(rets_true) >= 1, cte.loc(),
           'constant_time_equal accumulates byte differences (xor/or) over the whole string')
+
+    # R-FRESH: the header map the token is looked up in belongs to this request only — the parser builds a new object per
+    # request (returned by value from a local), and no server-lifetime object of that type exists to be reused
+    DA = 'ephemeralnet::daemon::(anonymous namespace)::'
+    pr = [f for f in P.fns if f.q == DA + 'parse_request']
+    if not pr:
+        raise AnalysisBroken('parse_request not found')
+    pr = pr[0]
+    ck.touch(pr)
+    ret_t = (pr.d.get('ret') or '').strip()
+    by_value = not ret_t.endswith('&') and not ret_t.endswith('*')
+    no_out_param = not any('ParseResult' in (p.get('t') or '') or 'ControlRequest' in (p.get('t') or '') for p in pr.params)
+    rets = [i for i in pr.walk() if pr.nodes[i]['k'] == 'ReturnStmt' and pr.kids(i)]
+    local_ok = bool(rets)
+    for r in rets:
+        vs = [pr.nodes[j] for j in pr.walk(r) if pr.nodes[j]['k'] == 'DeclRefExpr' and pr.nodes[j].get('dk') in ('Var', 'ParmVar') and 'ParseResult' in (pr.nodes[j].get('t') or '')]
+        for v in vs:
+            decl = [pr.nodes[j] for j in pr.walk() if pr.nodes[j]['k'] == 'VarDecl' and pr.nodes[j].get('d') == v.get('d')]
+            if not decl or decl[0].get('static'):
+                local_ok = False
+    ck.ob('C27.fresh', 'C27.fresh/parse_request', by_value and no_out_param and local_ok, pr.loc(),
+          'parse_request builds the request in a fresh local and returns it by value (return type `%s`): no header of an earlier request can survive into this one' % ret_t)
+    stale = []
+    for q, r in P.records.items():
+        if q.startswith('ephemeralnet::daemon::ControlServer'):
+            for fl in r.get('fields', []):
+                if 'ParseResult' in fl['t'] or 'ControlRequest' in fl['t']:
+                    stale.append('%s::%s' % (q.split('::')[-1], fl['n']))
+    hc = P.fn(IMPL + 'handle_client')
+    for i in hc.walk():
+        nd = hc.nodes[i]
+        if nd['k'] == 'VarDecl' and ('ParseResult' in (nd.get('t') or '') or 'ControlRequest' in (nd.get('t') or '')) and nd.get('static'):
+            stale.append('static ' + nd.get('n', '?'))
+    ck.ob('C27.fresh', 'C27.fresh/no-server-lifetime-request', not stale, hc.loc(),
+          'the control server keeps no request object across connections (found %s)' % (stale or 'none'))
